@@ -556,8 +556,8 @@ Proof.
           { destruct t; destruct Hi as [Hw' Ha]; rewrite Hw'; lia. }
           destruct (access_result xa) as [f|] eqn:Ea.
           + assert (Hf : is_success f = false) by (destruct xa; inversion Ea; reflexivity).
-            rewrite Hf. rewrite Hf in Eit. inversion Eit; subst. unfold inv; cbn. rewrite Hatt. auto.
-          + destruct (is_success (dial_outcome xb None)) eqn:Es; inversion Eit; subst; rewrite ?Es; unfold inv; cbn; rewrite ?Hatt; auto. }
+            rewrite Hf. inversion Eit. unfold inv; cbn. rewrite Hatt. auto.
+          + destruct (is_success (dial_outcome xb None)) eqn:Es; inversion Eit; rewrite ?Es; unfold inv; cbn; rewrite ?Hatt; auto. }
       rewrite (IH (S i) _ s1 carry1 Hnp' Hinv). reflexivity. }
   specialize (Hgen pre 0%nat 0%nat init 0 Hp (inv_init l c)). cbn [Nat.add] in Hgen. rewrite Hgen.
   split.
